@@ -404,4 +404,37 @@ Section Values.
     cbn [L1DStruct.legal] in Hl. apply andb_true_iff in Hl as [Hl1 Hl2].
     apply IH; [apply step_inv; assumption|exact Hl2].
   Qed.
+
+  (* ---------------- the reported loss ---------------- *)
+  Notation loss := (@loss num sub div ltb eqb inf is_nan is_inf round12 P).
+  Notation missing_bounds := (@missing_bounds num eqb P).
+  Notation finite_loss2 := (@finite_loss2 num sub div is_nan is_inf round12).
+
+  (* loss(real=True) of a reachable state: the loss function's value on a pair
+     of neighbouring evaluated points of the current data (at an admissible
+     y-scale), whose sort key is not smaller than that of the (likewise
+     characterised) value of any other neighbouring pair *)
+  Theorem reported_loss (s : st) : SInv s -> VInv s -> missing_bounds s = [] -> los s <> [] ->
+    exists a b g, adj (nb s) (a, b) /\ ScaleOK s g /\
+      loss s true = loss_of (nb s) (data s) (sx s) g a b /\
+      forall a' b', adj (nb s) (a', b') -> exists g', ScaleOK s g' /\
+        ltb (finite_loss2 (a, b) (loss s true) (mgrx s))
+            (finite_loss2 (a', b') (loss_of (nb s) (data s) (sx s) g' a' b') (mgrx s)) = false.
+  Proof.
+    intros HI HV Hm Hne.
+    destruct (loss_is_max sub div inf is_nan is_inf round12 P OL s true) as [_ H].
+    destruct (H Hm Hne) as [[[a b] v] [Hin [Hl Hmax]]]. cbn [snd] in Hl.
+    assert (Hk : In (a, b) (keys (los s))) by (unfold L1DMaps.keys; apply in_map_iff; exists ((a, b), v); auto).
+    destruct (v_vals HV _ Hk) as [g [Hg Hv]]. cbn [fst snd] in Hv.
+    rewrite (In_lget OL _ _ (s_los_sorted HI) Hin) in Hv. inversion Hv as [Ev].
+    exists a, b, g. split; [apply (s_los_keys HI); exact Hk|]. split; [exact Hg|]. split; [congruence|].
+    intros a' b' Hadj. apply (s_los_keys HI) in Hadj.
+    destruct (v_vals HV _ Hadj) as [g' [Hg' Hv']]. cbn [fst snd] in Hv'. exists g'. split; [exact Hg'|].
+    assert (Hin' : In ((a', b'), loss_of (nb s) (data s) (sx s) g' a' b') (los s)).
+    { clear - Hv' OL. induction (los s) as [|[k w] m IH]; cbn [L1D.lget] in Hv'; [discriminate|].
+      destruct (L1D.ival_eqb eqb (a', b') k) eqn:E.
+      - apply (ival_eqb_eq OL) in E. subst k. inversion Hv'. left; reflexivity.
+      - right. apply IH. exact Hv'. }
+    specialize (Hmax _ Hin'). unfold fl in Hmax. cbn [fst snd] in Hmax. rewrite Hl. exact Hmax.
+  Qed.
 End Values.
